@@ -42,6 +42,8 @@ type cmd struct {
 	EvOpt   gen.EventOptions
 	Factory gen.ProcessFactory
 	Meta    *actors.Meta
+	Entered chan struct{} // block: closed when the handler is entered
+	Release chan struct{} // block: the handler returns when this is closed
 	PO      gen.ProcessOptions
 	Done    chan res
 }
@@ -191,6 +193,11 @@ func observerHooks() *actors.Hooks {
 			}
 			m, ok := msg.(cmd)
 			if !ok {
+				return nil
+			}
+			if m.Op == "block" {
+				close(m.Entered)
+				<-m.Release
 				return nil
 			}
 			r := exec(p, m)
